@@ -29,10 +29,10 @@ const (
 )
 
 type parityEval struct {
-	p      *Program
-	depth  int
-	budget int
-	flags  map[string]bool // CPU feature flags (global name) -> assumed value
+	p         *Program
+	depth     int
+	budget    int
+	flags     map[string]bool // CPU feature flags (global name) -> assumed value
 	seenFlags map[string]bool
 }
 
